@@ -477,6 +477,57 @@ class AgreementMonitor(Monitor):
     """ C12: at quiescence every member of a group reports the same running set and running state for every
     process, and that set is what the Supervisors of the instances it sees RUNNING really report. """
 
+    ACTIVE = ('CHECKING', 'CHECKED', 'RUNNING', 'FAILED')
+
+    def attach(self, run):
+        Monitor.attach(self, run)
+        w = run.world
+        self.peer_view = {}     # (observer nick, observer inc) -> {peer identifier: state name}
+        self.unpublished = {}   # (observer nick, source nick) -> namespecs whose event was not published to observer
+        self.snapshot_taken = set()
+        w.on_hook('instance_state', self.on_instance_state)
+        w.listeners.append(self.on_event)
+
+    def on_instance_state(self, inst, identifier, new_state):
+        self.peer_view.setdefault((inst.nick, inst.inc), {})[identifier] = new_state.name
+        peer = self.run.world.by_identifier.get(identifier)
+        if new_state.name == 'CHECKING':
+            self.snapshot_taken.discard((inst.nick, peer))
+            # a fresh snapshot of that peer is going to be taken
+            self.unpublished.pop((inst.nick, peer), None)
+        elif new_state.name != 'CHECKED':
+            self.snapshot_taken.discard((inst.nick, peer))
+
+    def on_event(self, ev):
+        w = self.run.world
+        if ev['k'] == 'rpc_ret' and ev['method'] == 'supvisors.get_all_local_process_info' and ev['src'] != 'user':
+            # the observer has just taken its snapshot of that peer (loaded when the notification is processed)
+            self.snapshot_taken.add((ev['src'], ev['dst']))
+            return
+        if ev['k'] != 'truth':
+            return
+        src = w.instances.get(ev['inst'])
+        if src is None:
+            return
+        view = self.peer_view.get((src.nick, src.inc), {})
+        for inst in w.live():
+            if inst.nick != src.nick and view.get(inst.identifier, 'STOPPED') not in self.ACTIVE:
+                # the source does not publish process events to a peer it does not see active
+                self.unpublished.setdefault((inst.nick, src.nick), set()).add(ev['namespec'])
+                self.count('events_not_published')
+            elif (inst.nick, src.nick) in self.snapshot_taken and \
+                    self.peer_view.get((inst.nick, inst.inc), {}).get(src.identifier) == 'CHECKING':
+                # published, but the observer drops the events of a peer that is not yet CHECKED
+                self.unpublished.setdefault((inst.nick, src.nick), set()).add(ev['namespec'])
+                self.count('events_after_snapshot_before_admission')
+
+    def mechanism(self, observer, namespec, identifiers):
+        w = self.run.world
+        for identifier in (identifiers or list(w.by_identifier)):
+            if namespec in self.unpublished.get((observer, w.by_identifier.get(identifier)), ()):
+                return ':event-lost-in-handshake-window'
+        return ''
+
     def finish(self, run):
         w = run.world
         if not w.quiescent():
@@ -502,6 +553,7 @@ class AgreementMonitor(Monitor):
             if not reports:
                 continue
             self.count('groups_evaluated')
+            flagged = set()
             for nick, procs in reports.items():
                 seen_running = {i for i, s in vws[nick]['instance_states'].items() if s == 'RUNNING'}
                 for namespec, p in procs.items():
@@ -518,7 +570,10 @@ class AgreementMonitor(Monitor):
                     if listed != truth:
                         missing = truth - listed
                         kind = 'missing' if missing else 'stale'
-                        self.violate(f'C12/view-vs-truth:{kind}', f'{nick} lists {namespec} on '
+                        mech = self.mechanism(nick, namespec, listed ^ truth)
+                        if mech:
+                            flagged.add(namespec)
+                        self.violate(f'C12/view-vs-truth:{kind}{mech}', f'{nick} lists {namespec} on '
                                      f'{sorted(w.by_identifier[i] for i in listed)} at quiescence (vt={vt(w)}) but '
                                      f'the Supervisors it sees RUNNING report it running on '
                                      f'{sorted(w.by_identifier[i] for i in truth)}', case=run.describe())
@@ -534,7 +589,10 @@ class AgreementMonitor(Monitor):
                     run_a, run_b = p['statecode'] in (10, 20, 30, 40), q['statecode'] in (10, 20, 30, 40)
                     if set(p['identifiers']) != set(q['identifiers']) or run_a != run_b or \
                             (run_a and p['statecode'] != q['statecode']):
-                        self.violate('C12/disagreement', f'{nicks[0]} reports {namespec} {p["statename"]} on '
+                        mech = ':event-lost-in-handshake-window' if namespec in flagged else \
+                            (self.mechanism(nicks[0], namespec, set(p['identifiers']) | set(q['identifiers'])) or
+                             self.mechanism(other, namespec, set(p['identifiers']) | set(q['identifiers'])))
+                        self.violate(f'C12/disagreement{mech}', f'{nicks[0]} reports {namespec} {p["statename"]} on '
                                      f'{sorted(w.by_identifier[i] for i in p["identifiers"])} while {other} reports '
                                      f'{q["statename"]} on {sorted(w.by_identifier[i] for i in q["identifiers"])} '
                                      f'at quiescence (vt={vt(w)})', case=run.describe())
